@@ -16,9 +16,21 @@
 (* Rows are coefficient vectors over the given temperatures (exact            *)
 (* rationals), so the bindings can apply them to any block values.            *)
 (*                                                                            *)
-(* Actions: Write(b, t) appends a block that is not yet in the file, Close    *)
-(* ends the file.  TLC enumerates every arrangement of every subset of        *)
+(* Actions: Write(b, t, lay) appends a block that is not yet in the file,     *)
+(* Close ends the file.  TLC enumerates every arrangement of every subset of  *)
 (* blocks (exhaustive) or random ones (-simulate).                            *)
+(*                                                                            *)
+(* Record layout (round 4): every block is written in one of the record       *)
+(* layouts the HITRAN CIA format allows (constant Layouts), chosen block by   *)
+(* block: the data lines hold wavenumber and coefficient, and -- in the sets  *)
+(* that carry one -- a third column with the uncertainty of the coefficient;  *)
+(* the header is the short form (one-word comment) or the full 100-character  *)
+(* form (comment of several words followed by the reference number).  A line  *)
+(* is modelled as its sequence of blank-separated fields.  The physical table *)
+(* does not depend on the layouts (LayoutIrrelevant).  The reader picks its   *)
+(* fields by POSITION (KField, HeadFrom: variant switches for expected        *)
+(* counterexamples); a block whose coefficient / header fields are taken from *)
+(* another field is lost to the table (ReaderMatchesTable refutes it).        *)
 (*                                                                            *)
 (* Reader: a transcription of the reading algorithm (per-band list in file    *)
 (* order, sort, fill the master temperatures by bisection, rows addressed by  *)
@@ -30,8 +42,11 @@ CONSTANTS NB,              \* bands 1..NB, wavenumber ranges disjoint and ascend
           TempK,           \* candidate temperatures in K (ascending sequence of integers)
           SortBeforeFill,  \* TRUE: the reader sorts a band's list before filling gaps
           OutsideRule,     \* "zero" (documented) | "hold" (variant: nearest given block outside the band's temperatures)
-          BoundsRule       \* "given": a band's temperature range is that of its blocks in the file (documented)
+          BoundsRule,      \* "given": a band's temperature range is that of its blocks in the file (documented)
                            \* "running" (variant): the range is re-evaluated on the list while it is being filled
+          Layouts,         \* record layouts a block may be written in, subset of AllLayouts
+          KField,          \* "second" (documented: wavenumber, coefficient[, uncertainty]) | "last" (variant: last field of a data line)
+          HeadFrom         \* "start" (documented: header fields counted from the left) | "end" (variant: counted from the right)
 VARIABLES phase, file
 
 hvars == <<phase, file>>
@@ -39,7 +54,23 @@ NT == Len(TempK)
 TIdx == 1..NT
 HBlocks == (1..NB) \X TIdx
 
-HWritten == {file[i] : i \in DOMAIN file}
+\* ------------------------------------------------ record layouts: a line is its sequence of blank-separated fields
+AllLayouts == {"k", "k+err", "ref:k", "ref:k+err"}
+HasErr(lay) == lay \in {"k+err", "ref:k+err"}
+HasRef(lay) == lay \in {"ref:k", "ref:k+err"}
+DataFields(lay) == IF HasErr(lay) THEN <<"wn", "k", "err">> ELSE <<"wn", "k">>
+HeadFields(lay) == <<"pair", "wnmin", "wnmax", "npts", "T", "kmax", "res">>
+                   \o (IF HasRef(lay) THEN <<"comment", "comment", "comment", "ref">> ELSE <<"comment">>)
+\* the fields the reader takes (by position)
+PickK(f) == IF KField = "second" THEN f[2] ELSE f[Len(f)]
+\* position of the p-th header field of the short form, counted from the chosen end
+PickHead(f, p) == IF HeadFrom = "start" THEN f[p] ELSE f[Len(f) - (8 - p)]
+BlockReadRight(lay) == /\ PickK(DataFields(lay)) = "k"
+                       /\ DataFields(lay)[1] = "wn"
+                       /\ \A p \in 1..6 : PickHead(HeadFields(lay), p) = HeadFields("k")[p]
+
+HWritten == {<<file[i][1], file[i][2]>> : i \in DOMAIN file}
+HLayouts == {file[i][3] : i \in DOMAIN file}
 HBands == {x[1] : x \in HWritten}
 HMaster == {x[2] : x \in HWritten}
 HHave(b) == {x[2] : x \in {y \in HWritten : y[1] = b}}
@@ -51,12 +82,12 @@ HMasterSeq == AscSeq(HMaster)
 HBandSeq == AscSeq(HBands)
 
 HInit == phase = "write" /\ file = <<>>
-Write(b, t) == /\ phase = "write" /\ <<b, t>> \notin HWritten
-               /\ file' = Append(file, <<b, t>>) /\ UNCHANGED phase
+Write(b, t, lay) == /\ phase = "write" /\ <<b, t>> \notin HWritten
+                    /\ file' = Append(file, <<b, t, lay>>) /\ UNCHANGED phase
 \* a table needs two temperatures to be a function of T
 CloseFile == /\ phase = "write" /\ Cardinality(HMaster) >= 2
          /\ phase' = "closed" /\ UNCHANGED file
-HNext == CloseFile \/ \E bt \in HBlocks : Write(bt[1], bt[2])
+HNext == CloseFile \/ \E bt \in HBlocks, lay \in Layouts : Write(bt[1], bt[2], lay)
 HSpec == HInit /\ [][HNext]_hvars
 HClosed == phase = "closed"
 
@@ -91,8 +122,9 @@ QueryInside(K) == K >= TempK[SetMin(HMaster)] /\ K <= TempK[SetMax(HMaster)]
 
 \* ------------------------------------------------ the reading algorithm
 \* entries of a band's list: [t |-> temperature index, c |-> coefficient vector]
+\* (a block whose fields are not the ones the layout puts the coefficient / header values in contributes nothing it should)
 BandList(b) == LET s == SelectSeq(file, LAMBDA x : x[1] = b)
-               IN  [i \in DOMAIN s |-> [t |-> s[i][2], c |-> CUnit(s[i][2])]]
+               IN  [i \in DOMAIN s |-> [t |-> s[i][2], c |-> IF BlockReadRight(s[i][3]) THEN CUnit(s[i][2]) ELSE CZero]]
 SortT(lst) == SortSeq(lst, LAMBDA x, y : x.t < y.t)
 \* numpy.searchsorted(ts, key, side='right') with 0-based bounds: a bisection, defined on unsorted input too
 RECURSIVE Bisect(_, _, _, _)
@@ -133,8 +165,9 @@ ReaderMatchesTable ==
 
 \* ------------------------------------------------ invariants of the physical table
 HTypeOK == /\ phase \in {"write", "closed"}
-           /\ \A i, j \in DOMAIN file : i # j => file[i] # file[j]
-           /\ \A i \in DOMAIN file : file[i] \in HBlocks
+           /\ \A i, j \in DOMAIN file : i # j => <<file[i][1], file[i][2]>> # <<file[j][1], file[j][2]>>
+           /\ \A i \in DOMAIN file : <<file[i][1], file[i][2]>> \in HBlocks /\ file[i][3] \in Layouts
+           /\ Layouts \subseteq AllLayouts /\ Layouts # {}
 CSum(c) == RSumSeq([i \in TIdx |-> c[i]])
 \* given blocks are kept as they are; every other row is zero or a convex combination of two given blocks of the same band
 GivenKept == HClosed => \A b \in HBands : \A t \in HHave(b) : RowOf(b, t) = CUnit(t)
@@ -144,7 +177,10 @@ RowsConvex == HClosed => \A b \in HBands : \A t \in HMaster :
                      /\ CSum(c) \in {RZero, ROne}
                      /\ Cardinality({i \in TIdx : c[i] # RZero}) <= 2
 HFits == HClosed => \A b \in HBands : \A t \in HMaster : \A i \in TIdx : Fits(RowOf(b, t)[i])
-\* non-vacuity probes (expected to be refuted)
+\* every layout of the format is read: documented positions hit the coefficient and the six header values
+EveryLayoutRead == \A lay \in Layouts : BlockReadRight(lay)
+\* non-vacuity probes (expected to be refuted; non-vacuity of the layout dimension -- a third column, mixed files -- is checked
+\* on the exported files by the driver)
 NeverUnsortedBand == HClosed => \A b \in HBands : LET l == BandList(b) IN \A i \in DOMAIN l : i > 1 => l[i - 1].t < l[i].t
 NeverInteriorGap == HClosed => \A b \in HBands : \A t \in HMaster : CSum(RowOf(b, t)) = RZero \/ Cardinality({i \in TIdx : RowOf(b, t)[i] # RZero}) = 1
 =============================================================================
